@@ -75,7 +75,7 @@ class Random(Component):
         return gen.set_join_case(tier)
 
     def check(self, case, ctx):
-        L, R = canon.build_table(case["L"]), canon.build_table(case["R"])
+        L, R = canon.build_pair(case)
         tok = mk_tok(case["tok"])
         df = calls.run_join(ctx, case, L, R, tok)
         if df is None:
@@ -501,4 +501,16 @@ class Large(Component):
         ctx.label("large:n_jobs>1", case["n_jobs"] != 1)
 
 
-COMPONENTS = [Random(), E1Sound(), Dense(), Bundled(), Large()]
+class SelfJoin(Random):
+    """Every case passes the very same DataFrame object as left and right table, joined on the
+    same attribute or on two different string columns of it."""
+    name = "selfjoin"
+
+    def examples(self, tier):
+        return 300 if tier == "quick" else 1000
+
+    def strategy(self, tier):
+        return gen.set_join_case(tier, self_join=True)
+
+
+COMPONENTS = [Random(), E1Sound(), Dense(), Bundled(), Large(), SelfJoin()]
